@@ -104,6 +104,9 @@ var pool = []poolItem{
 	{"method", `(find-method (function c09-generic) nil '(fixnum))`},
 	{"biclass", `(find-class 'fixnum)`},
 	{"condclass", `(find-class 'error)`},
+	// streams that were closed, and a stream at which every read fails
+	{"sinclosed", `(let ((s (make-string-input-stream "abc"))) (close s) s)`},
+	{"soutclosed", `(let ((s (make-string-output-stream))) (close s) s)`},
 }
 
 var poolIndex = func() map[string]int {
